@@ -100,8 +100,7 @@ def schema_references(rep, cases, rnd, d, quick: bool) -> None:
         if exc is not None:
             rep.violate("C20/crash/schemas", "generator raised", adoc=adoc, exc=exc)
             continue
-        alias_inline = any(s["k"] == "wrap" and any(x["name"] == s["t"] and x["k"] == "objinl" for x in adoc) for s in adoc)
-        if data.errors and not alias_inline and not _alias_chain_inline(adoc):
+        if data.errors:
             kinds = "+".join(sorted({s["k"] for s in adoc if s["t"]}))
             rep.violate(f"C20/valid-reference-rejected/{kinds}", f"a document whose references are all valid produced diagnostics: "
                         f"{(data.errors[0].header or '')[:80]} {(data.errors[0].detail or '')[:120]}", adoc=adoc, doc=doc)
